@@ -32,6 +32,9 @@ LEVEL_TEXT = (
 )
 LEVEL_NOTE = "Trusted: the 30-line model in this file, Hypothesis."
 TECHNIQUE = "Hypothesis + rule-based state machine against a model of disabled/enabled account strings"
+#: thorough tier: seed-dependent tasks are repeated under this many derived seeds (run.py); the listed task functions enumerate fixed domains
+THOROUGH_REPS = 8
+DETERMINISTIC_FNS = ()
 
 OTHER = ["md5_crypt", "sha256_crypt", "des_crypt", "mysql41", "pbkdf2_sha256", "ldap_salted_sha1", "hex_md5", "bsdi_crypt", "phpass", "sha512_crypt", "nthash"]
 DJ_OTHER = ["django_pbkdf2_sha256", "django_salted_sha1", "django_salted_md5", "hex_md5", "django_des_crypt"]
